@@ -21,6 +21,7 @@ type memReader struct {
 	pos     *T // BV64
 	fail    *T // Bool: terminal error is an injected error instead of io.EOF
 	chunked bool
+	arb     int // number of reads with an arbitrary count (chunked)
 	nread   int
 	reqs    *T
 	eofData *T
@@ -660,7 +661,7 @@ func registerIntrinsics(m *Machine) {
 		m.addStream(loc, &memReader{name: name, max: int(max), data: newUFBA(int(max), name), L: L, pos: BV(64, 0), reqs: BV(64, 0), fail: Not(Eq(F, BV(64, 0)))})
 		return done(Ptr{L: loc})
 	}
-	mkReaderOf := func(trunc, chunked bool) intrFn {
+	mkReaderOf := func(trunc, chunked bool, arb int) intrFn {
 		return func(m *Machine, fr *Frame, a []Value, call ssa.Instruction, d bool) (Value, int) {
 			s := a[0].(Slice)
 			loc := newLoc(readerLocType(call))
@@ -677,7 +678,7 @@ func registerIntrinsics(m *Machine) {
 				}
 				return src.readAt(Bin("bvadd", off, i), nupd)
 			}}
-			r := &memReader{name: "r", data: view, L: s.Len, pos: BV(64, 0), reqs: BV(64, 0), fail: BoolC(false), chunked: chunked}
+			r := &memReader{name: "r", data: view, L: s.Len, pos: BV(64, 0), reqs: BV(64, 0), fail: BoolC(false), chunked: chunked, arb: arb}
 			if trunc || chunked {
 				r.name = goString(a[1])
 			}
@@ -709,9 +710,10 @@ func registerIntrinsics(m *Machine) {
 			return done(Ptr{L: loc})
 		}
 	}
-	I["zzReaderOf"] = mkReaderOf(false, false)
-	I["zzReaderTrunc"] = mkReaderOf(true, false)
-	I["zzChunkedReaderOf"] = mkReaderOf(false, true)
+	I["zzReaderOf"] = mkReaderOf(false, false, 3)
+	I["zzReaderTrunc"] = mkReaderOf(true, false, 3)
+	I["zzChunkedReaderOf"] = mkReaderOf(false, true, 3)
+	I["zzChunkedReaderOf2"] = mkReaderOf(false, true, 2)
 	setPos := func(m *Machine, r *memReader, np *T) {
 		old := r.pos
 		r.pos = np
@@ -749,8 +751,8 @@ func registerIntrinsics(m *Machine) {
 		avail := Bin("bvsub", r.L, r.pos)
 		n := Ite(Cmp("bvult", avail, p.Len), avail, p.Len)
 		var err Value = Iface{}
-		if r.chunked && r.nread < 3 {
-			// the first three reads deliver an arbitrary legal count (case split); later reads deliver all that is asked
+		if r.chunked && r.nread < r.arb {
+			// the first reads (three, or two for zzChunkedReaderOf2) deliver an arbitrary legal count (case split); later reads deliver all that is asked
 			k := Var(fmt.Sprintf("%s_c%d", r.name, r.nread), 64)
 			m.addInput(k)
 			m.sol.Assert(Cmp("bvule", BV(64, 1), k))
@@ -939,6 +941,7 @@ func registerIntrinsics(m *Machine) {
 			v := Var(fmt.Sprintf("%s_%d", name, i), 32)
 			if n <= 256 {
 				m.addInput(v)
+				m.sol.Assert(Not(floatIsNaN(32, v))) // NaN patterns are excluded (the native library replaces them)
 			}
 			al.sub[i].v = v
 		}
@@ -1028,6 +1031,7 @@ func registerIntrinsics(m *Machine) {
 			v := Var(fmt.Sprintf("%s_%d", name, i), 64)
 			if n <= 256 {
 				m.addInput(v)
+				m.sol.Assert(Not(floatIsNaN(64, v))) // NaN patterns are excluded (the native library replaces them)
 			}
 			al.sub[i].v = v
 		}
@@ -1045,6 +1049,14 @@ func registerIntrinsics(m *Machine) {
 		}
 		ln := BV(64, uint64(n))
 		return done(Slice{AL: al, Off: BV(64, 0), Len: ln, Cap: ln})
+	}
+	// zzB2I(b): 1 if b else 0, without a fork
+	I["zzB2I"] = func(m *Machine, fr *Frame, a []Value, call ssa.Instruction, d bool) (Value, int) {
+		return done(Ite(a[0].(*T), BV(64, 1), BV(64, 0)))
+	}
+	// zzSameTerm(a, b): the two floats are the same term (same operations on the same inputs); native: same bits
+	I["zzSameTerm"] = func(m *Machine, fr *Frame, a []Value, call ssa.Instruction, d bool) (Value, int) {
+		return done(BoolC(a[0].(*T) == a[1].(*T)))
 	}
 	I["zzIgnoreZeroSign"] = func(m *Machine, fr *Frame, a []Value, call ssa.Instruction, d bool) (Value, int) {
 		old := fpIgnoreZeroSign
